@@ -11,6 +11,7 @@
 #include <stdio.h>
 #include <stdlib.h>
 #include <string.h>
+#include <time.h>
 #include <reproc/reproc.h>
 #include <reproc/drain.h>
 
@@ -92,6 +93,7 @@ static void *cycle_thread(void *arg)
 
 /* reader || writer on one child */
 static reproc_t *shared;
+static int rw_pause_ms;
 #define BIG (256 * 1024)
 static void *writer(void *arg)
 {
@@ -99,9 +101,36 @@ static void *writer(void *arg)
   uint8_t *b = malloc(BIG);
   for (int i = 0; i < BIG; i++) b[i] = (uint8_t) (i * 7 + (i >> 8));
   int off = 0;
-  while (off < BIG) { int r = reproc_write(shared, b + off, (size_t) (BIG - off)); if (r < 0) { fail("rw-write", 0, r, off); break; } off += r; }
+  while (off < BIG) {
+    int lim = (rw_pause_ms && off < BIG / 2) ? BIG / 2 : BIG;
+    int r = reproc_write(shared, b + off, (size_t) (lim - off)); if (r < 0) { fail("rw-write", 0, r, off); break; } off += r;
+    if (rw_pause_ms && off == BIG / 2) { struct timespec ts = { rw_pause_ms / 1000, (rw_pause_ms % 1000) * 1000000L }; nanosleep(&ts, NULL); }
+  }
   reproc_close(shared, REPROC_STREAM_IN);
   free(b);
+  return NULL;
+}
+/* second round: the reader uses reproc_drain, the writer pauses in the middle (the child is silent for a while: nobody but
+ * the writer may end its input) */
+struct big { uint8_t *b; int g; };
+static int big_sink(REPROC_STREAM stream, const uint8_t *buf, size_t n, void *ctx)
+{
+  struct big *a = ctx;
+  if (stream != REPROC_STREAM_OUT || n == 0) return 0;
+  if (a->g + (int) n > BIG + 16) return -7;
+  memcpy(a->b + a->g, buf, n); a->g += (int) n;
+  return 0;
+}
+static void *drain_reader(void *arg)
+{
+  (void) arg;
+  struct big a = { malloc(BIG + 16), 0 };
+  reproc_sink sk = { big_sink, &a };
+  int r = reproc_drain(shared, sk, sk);
+  if (r != 0) fail("rw-drain", 0, r, a.g);
+  if (a.g != BIG) fail("rw-drain-length", 0, a.g, BIG);
+  for (int i = 0; i < a.g && i < BIG; i++) if (a.b[i] != (uint8_t) (i * 7 + (i >> 8))) { fail("rw-drain-byte", 0, i, a.b[i]); break; }
+  free(a.b);
   return NULL;
 }
 static void *reader(void *arg)
@@ -130,6 +159,13 @@ int main(int argc, char **argv)
   pthread_t w, rd;
   if (r < 0) fail("rw-start", 0, r, 0);
   else { pthread_create(&w, NULL, writer, NULL); pthread_create(&rd, NULL, reader, NULL); pthread_join(w, NULL); pthread_join(rd, NULL); r = reproc_wait(shared, 10000); if (r != 0) fail("rw-status", 0, r, 0); }
+  reproc_destroy(shared);
+  /* second round on a fresh child: drain in the reader, a pause in the writer */
+  rw_pause_ms = 800;
+  shared = reproc_new();
+  r = reproc_start(shared, cat, o);
+  if (r < 0) fail("rw2-start", 0, r, 0);
+  else { pthread_create(&w, NULL, writer, NULL); pthread_create(&rd, NULL, drain_reader, NULL); pthread_join(w, NULL); pthread_join(rd, NULL); r = reproc_wait(shared, 10000); if (r != 0) fail("rw2-status", 0, r, 0); }
   reproc_destroy(shared);
   for (int t = 0; t < nt; t++) pthread_join(th[t], NULL);
   printf("threads=%d cycles=%d failures=%d\n", nt, cycles, failures);
